@@ -402,9 +402,16 @@ def _polygon_shape(rng):
         if abs(w - h) < 0.2:
             h += 0.5
         return np.array([[-w, -h], [w, -h], [w, h], [-w, h]]), "rectangle"       # cyclic, not tangential
-    if u < 0.38:
+    if u < 0.32:
         a, b, c = rng.uniform(0.5, 1.5), rng.uniform(0.4, 1.2), rng.uniform(1.5, 3)
         return np.array([[0, -b], [a, 0], [0, c], [-a, 0]]), "kite"               # tangential, (generally) not cyclic
+    if u < 0.38:
+        # isosceles trapezoid along the axes, on the 1/8 grid: mirror-symmetric, every coordinate's values balanced about
+        # the mean (x: +-w1, +-w2; y: two at +h, two at -h) - and yet not point-symmetric: its smallest circle is not at the mean
+        w1, w2, h = (int(rng.integers(2, 25)) / 8 for _ in range(3))
+        if w1 == w2:
+            w2 += 0.5
+        return np.array([[-w1, -h], [w1, -h], [w2, h], [-w2, h]]), "trapezoid-aligned"
     if u < 0.48:
         return gen.convex_polygon_2d(rng, 3, regular=False), "triangle"
     if u < 0.58:
@@ -441,8 +448,21 @@ def _polyhedron_shape(rng):
             d[0] += 0.7
         import itertools
         return np.array(list(itertools.product([-1, 1.0], repeat=3))) * d, "box"
-    if u < 0.32:
+    if u < 0.27:
         return gen.convex_polygon_2d(rng, 3, regular=False) @ np.array([[1, 0, 0.3], [0, 1, -0.2]]) * 1.0, "tetra-base"
+    if u < 0.32:
+        # solids along the axes, on the 1/8 grid, whose coordinate values are balanced about the mean in every axis without
+        # the solid being point-symmetric: two different rectangles in parallel planes, or two crossed segments (a disphenoid)
+        a, b, c, d, h = (int(rng.integers(2, 25)) / 8 for _ in range(5))
+        if rng.random() < 0.5:
+            if (a, b) == (c, d):
+                c += 0.5
+            P = np.array([[sx * a, sy * b, h] for sx in (-1, 1) for sy in (-1, 1)] + [[sx * c, sy * d, -h] for sx in (-1, 1) for sy in (-1, 1)])
+        else:
+            if a == c:
+                c += 0.5
+            P = np.array([[a, h, 0], [-a, h, 0], [0, -h, c], [0, -h, -c]])
+        return P[:, list(rng.permutation(3))], "aligned-balanced"
     if u < 0.44:
         # polar dual of points on the unit sphere: tangential (insphere radius 1)
         n = int(rng.integers(5, 12))
@@ -500,7 +520,10 @@ def run_case(i, rng, rec, tier, state):
             xy = xy[::-1]
         xy = np.roll(xy, -int(rng.integers(len(xy))), axis=0)
         V = np.column_stack((xy, np.zeros(len(xy))))
-        if rng.random() < 0.5:
+        if kind == "trapezoid-aligned":
+            if rng.random() < 0.8:
+                V[:, :2] += rng.integers(-12, 13, size=2) / 4.0     # stays along the axes and on the grid
+        elif rng.random() < 0.5:
             V = V @ gen.random_rotation(rng).T + rng.uniform(-3, 3, size=3)
             plane_n = None
         else:
@@ -551,7 +574,12 @@ def run_case(i, rng, rec, tier, state):
             P = np.vstack((P, P.mean(0) + [0.1, 0.2, rng.uniform(0.5, 2)]))
             kind = "tetrahedron"
         P = P * (float(np.exp(rng.uniform(-1.0, 1.0))) if rng.random() < 0.8 else float(10 ** rng.uniform(-3, 3)))
-        P, R, t, ratio = gen.place(rng, P, offset_choices=(0.0, 0.5, 3.0))
+        if kind == "aligned-balanced":
+            # stays along the axes: moved by a multiple of 1/4 only (a rotation would hide what the class is about)
+            ratio = 0.0
+            P = P + (rng.integers(-12, 13, size=3) / 4.0 if rng.random() < 0.6 else 0.0)
+        else:
+            P, R, t, ratio = gen.place(rng, P, offset_choices=(0.0, 0.5, 3.0))
         P = P[rng.permutation(len(P))]
         try:
             if rng.random() < 0.7:
